@@ -19,6 +19,18 @@ PROPS["C07"] = {
     "not_covered": ["outstation::session::handle_one_request_from_idle error arm (async): replies to malformed broadcast"],
 }
 
+PROPS["C05"] = {
+    "level_text": "Proof by contract of the duplicate-request classification predicate on a real session object: a request is treated as a retransmission iff sequence number and digest of the raw fragment equal those of the last valid request, and the stored response is carried unchanged; stored-request record and header constructors.",
+    "level_note": "Classification predicate proved; the replay path (that a repeat never reaches the execution handlers and that the echoed body bytes are those of the stored response) is inside async fns and is NOT verified. xxh64 collision-freedom assumed.",
+    "not_covered": ["process_request_from_idle / wait_for_sol_confirm / repeat_solicited / repeat_unsolicited (async): that a repeat is answered from the stored bytes and never executed"],
+    "assumptions": ["xxh64 behind a logged contract stub (any u64); collisions of xxh64 are outside the model"],
+}
+PROPS["C13"] = {
+    "level_text": "Proof by contract that the response IIN is exactly the stated function of session state, event-buffer info and application answer (get_response_iin on a real session), that the restart indication survives the per-connection reset and is cleared only by the IIN write, plus the event-buffer contracts (C03) that define class/overflow truth.",
+    "level_note": "That the IIN is recomputed for every transmitted response and the broadcast bit cleared on confirm is async control flow: not covered. DatabaseHandle::get_events_info behind a contract stub (Mutex).",
+    "not_covered": ["write_solicited/write_unsolicited (async): IIN recomputed per transmitted fragment", "confirm-mandatory broadcast bit cleared on confirm (async)"],
+}
+
 NA = {
     "C02": "whole-system history over real TCP and three threads: no function contract within reach expresses it (Kani has no threads, tokio I/O crashes the Kani compiler); its ingredients are decided under C03/C06/C08/C09/C10/C13",
     "C14": "every rule is control flow inside async fns that hold the physical layer (check_unsolicited, perform_unsolicited_response_series, wait_for_unsolicited_confirm, handle_deferred_read): outside both verifiers",
